@@ -2,9 +2,10 @@
 
 Leg A: theorems of coq/theories/Properties/C10.v over the interpreter Fields/Model.v of the *generated*
        Gen_values.v (translators/values.py re-run on every check).
-Leg B: the translator (fails closed) + correspondence: a compiled corpus of ~1100 real macro invocations
+Leg B: the translator (fails closed) + correspondence: a compiled corpus of ~1300 real macro invocations
        (driver/props/c10_corpus.py -> harness/fields/src/gen/), each run with boundary and seeded random payloads
-       under enabling / statically disabling / dynamically disabling / level-capping collectors; the same
+       under enabling / statically disabling / dynamically disabling / level-capping collectors, in three builds
+       (normal; tracing feature max_level_info = the static stage; tracing feature log + a logger); the same
        (invocation, payload, collector) cases are evaluated by the Coq model and compared observation by observation.
 Leg C: oracle = the property's predicates evaluated in Python from the generator's own description of each
        invocation (names, order, exactly-once, method per type, value identity, sigil texts, Empty/unset/undeclared
@@ -658,7 +659,8 @@ def run(ctx):
                 "form, trailing comma; positional / named / captured format arguments); span follow-ups (declared / undeclared / foreign Field / "
                 "hand-built ValueSet with None and foreign entries). Payloads: all integer boundaries of every width, float specials, Unicode/escape "
                 "strings, then seeded random. Collectors: always / sometimes+true / never / sometimes+false / hint caps; the whole corpus a second time "
-                "compiled with tracing's `max_level_info` (static stage). non-trivial = distinct (macro, prefix set, brace, field-form multiset, "
+                "compiled with tracing's `max_level_info` (static stage) and a third time with tracing's `log` feature + a logger (first with no "
+                "dispatcher ever set, then under collectors). non-trivial = distinct (macro, prefix set, brace, field-form multiset, "
                 "value-type multiset, has-message) tuple observed enabled with at least one field or message")
     rep.trusted_base = [
         "Coq 8.16.1 kernel + vm_compute (no native_compute)",
@@ -667,7 +669,9 @@ def run(ctx):
         "harness/fields (typed recording Visit, counting wrappers t()/Deref) and driver/props/c10_corpus.py (generator + its description)",
         "std formatting as the reference for Display/Debug texts of strings and floats (computed outside tracing)",
         "Python oracle (driver/props/c10.py)"]
-    rep.assumptions = ["feature `log` off (with `log` on and no collector ever set, the disabled branch formats fields for the log record: C18's documented behaviour)",
+    rep.assumptions = ["every statement except C10_lazy_with_log is for tracing's feature `log` off; with `log` on and no dispatcher ever set the disabled "
+                       "branch hands the fields to the `log` crate (C18's documented behaviour): characterised exactly by C10_lazy_with_log / "
+                       "spec_log_formats and checked in the third build",
                        "usize/isize are 64-bit", "`x as f64` is exact on representable values (IEEE fpext); NaN compared as NaN, not by payload",
                        "theorems cover the modelled form grammar; which forwarding arm rustc picks for a token sequence is covered by the corpus only",
                        "value Display/Debug impls are pure (the model identifies a &dyn Debug with the text it prints)",
@@ -744,7 +748,7 @@ def run(ctx):
     # ---- oracle over every observation
     case = None
     model_cases = {}      # key -> (template, impl record, refs)
-    n_model_target = 6000 if ctx.thorough() else 2600
+    n_model_target = 7000 if ctx.thorough() else 3200
     n_static_target = n_model_target // 5
     n_log_target = n_model_target // 4
     n_static = 0
